@@ -11,7 +11,7 @@ INF = float("inf")
 RULE = (
     "plot_diagrams: 6-element diagram cover (one point, several, infinite deaths, negative coordinates, "
     "2- and 3-diagram lists) x FULL option product plot_only x lifetime x diagonal x legend x labels "
-    "(None/str/list) x xy_range (None/explicit) x title x (supplied ax is / is not pyplot's current axes / "
+    "(None/str/list) x xy_range (None / explicit square / explicit non-square) x title x (supplied ax is / is not pyplot's current axes / "
     "no ax given) ; matching plots: the matchings actually returned by bottleneck (under ALL rank "
     "orders of the matching routine, M+N<=4) and wasserstein for all ordered pairs of a 6-diagram cover "
     "incl. an empty partner, again with the supplied axes current or not. Oracle = artist inspection: "
@@ -28,6 +28,7 @@ COVER = [
     ("negative", [[[-3.0, -1.0], [-2.0, 0.5]]]),
     ("two-diagrams", [[[0.0, 1.0], [0.0, INF]], [[0.5, 2.0], [1.0, 1.5]]]),
     ("three-diagrams", [[[0.0, 2.0]], [[1.0, 3.0], [-1.0, 0.0]], [[0.5, 0.75], [2.0, INF], [2.0, 2.5]]]),
+    ("far-from-origin", [[[100.0, 101.5], [100.5, INF], [102.0, 103.0]]]),
 ]
 MCOVER = [
     [[0.0, 1.0]],
@@ -40,13 +41,17 @@ MCOVER = [
 
 
 def bounds(tier):
-    return {"diagram_cover": len(COVER), "option_product": 2 * 2 * 2 * 2 * 3 * 2 * 2 * 3, "matching_cover": len(MCOVER)}
+    return {"diagram_cover": len(COVER), "option_product": "plot_only(2-4) x 2 x 2 x 2 x 3 x 3 x 2 x 3", "matching_cover": len(MCOVER)}
 
 
 def option_product(n_dgms):
     plot_onlys = [None, [n_dgms - 1] if n_dgms > 1 else [0]]
+    if n_dgms == 3:
+        plot_onlys += [[2, 0], [0, 1]]
+    elif n_dgms == 2:
+        plot_onlys += [[1, 0]]
     for po, lifetime, diagonal, legend, labels, xyr, title, axmode in itertools.product(
-            plot_onlys, (False, True), (True, False), (True, False), ("none", "str", "list"), (None, [-5.0, 8.0, -4.0, 9.0]),
+            plot_onlys, (False, True), (True, False), (True, False), ("none", "str", "list"), (None, [-5.0, 8.0, -4.0, 9.0], [-5.0, 112.0, -4.0, 6.0]),
             (None, "A title"), ("given-current", "given-not-current", "not-given")):
         yield {"plot_only": po, "lifetime": lifetime, "diagonal": diagonal, "legend": legend, "labels": labels,
                "xy_range": xyr, "title": title, "axmode": axmode}
